@@ -207,6 +207,21 @@ class Exec:
             self.oblige("assert", fr, c, st)
             self.assume(fr, zbool(c))
             return [fr]
+        if isinstance(st, ast.If) and _guarded_insert(st) is not None:
+            # `if KEY not in d: d[KEY] = VALUE`: an insertion that keeps the first value stored under KEY.
+            # Modelled as an unconditional insertion, justified by the obligation that VALUE is a function of KEY
+            # (two iterations that produce the same key produce the same value).
+            dname, key_node, val_node = _guarded_insert(st)
+            ref = fr.env.get(dname)
+            if isinstance(ref, Ref) and ref.kind == "dict":
+                key, val = self.eval(key_node, fr), self.eval(val_node, fr)
+                self.oblige_functional(fr, key, val, st)
+                before = len(fr.heap[ref.oid].entries)
+                self.dict_store(ref, key, val, fr, st)
+                ents = fr.heap[ref.oid].entries
+                if len(ents) > before:
+                    ents[-1].keep_first = True
+                return [fr]
         if isinstance(st, ast.If):
             c = self.truth(self.eval(st.test, fr), fr)
             return self.branch(c, fr, lambda f: self.run_block(st.body, [f]), lambda f: self.run_block(st.orelse, [f]))
@@ -266,22 +281,47 @@ class Exec:
                 self.loop_counter += _count_loops(st.body)
             return frames
         info = _loop_state(st.body, _names(st.target))
+        reads = {n_ for n_ in _dict_reads(st.body, info["dict_writes"]) if isinstance(fr.env.get(n_), Ref) and fr.env[n_].kind == "dict"}
+        if reads:
+            raise Unsupported(f"loop #{ordinal} at line {st.lineno} reads {sorted(reads)} which it also writes (only `if k not in d: d[k] = v` is modelled)")
         carried = sorted(info["carried"])
         lists = sorted(info["lists"])
         # accumulators by ROLE (k-th list mutated in the loop body, in source order): invariants refer to
         # env["_acc"][k], so renaming a local does not break them
         acc_names = [n for n in _mutated_lists_in_order(st.body) if n in info["lists"]]
-        if (carried or lists) and inv is None:
+        if (carried or lists) and inv is None and not getattr(self.spec, "acc_closed", {}).get(ordinal):
             raise Unsupported(
                 f"loop #{ordinal} at line {st.lineno} carries state {carried + lists} and has no invariant"
             )
         env0 = dict(fr.env)
+        outer_ghosts = {g: fr.env[g] for g in ("_i", "_acc") if g in fr.env}
+        if "_i" in fr.env:
+            # ghost index of the enclosing loop(s): _outer[0] is the nearest enclosing loop's index
+            fr.env["_outer"] = [fr.env["_i"]] + list(fr.env.get("_outer", []))
         modified = sorted(set(carried) | set(lists) | info["assigned"])
         # ---- invariant holds on entry
+        closed = getattr(self.spec, "acc_closed", {}).get(ordinal, {})  # role index -> fn(ex, fr, env) -> Seq
+
+        def closed_ok(f, label):
+            # the closed form of an accumulator IS its invariant: actual list == closed(_i)
+            for k_, fn_ in closed.items():
+                ref_ = f.env.get(acc_names[k_]) if k_ < len(acc_names) else None
+                if not (isinstance(ref_, Ref) and ref_.kind == "list"):
+                    raise Unsupported(f"acc_closed[{ordinal}][{k_}] does not name a list accumulator")
+                self.oblige(f"{label}:acc{k_}", f, self.equal(f.heap[ref_.oid], fn_(self, f, f.env), f), st)
+
+        def closed_set(f):
+            for k_, fn_ in closed.items():
+                ref_ = f.env.get(acc_names[k_])
+                f.heap[ref_.oid] = fn_(self, f, f.env)
+
+        if closed and inv is None:
+            inv = lambda c, e: True
         if inv is not None:
             fr.env["_i"] = 0
             fr.env["_acc"] = [fr.env.get(n) for n in acc_names]
             self.oblige(f"inv-init:loop{ordinal}", fr, self.eval_spec(inv, fr), st)
+            closed_ok(fr, f"inv-init:loop{ordinal}")
         # ---- one arbitrary iteration
         i = fresh_int("i")
         body = fr.clone()
@@ -289,12 +329,16 @@ class Exec:
         body.binders = body.binders + ((i, 0, n),)
         body.marks = body.marks + (mark,)
         body.pc.append(z3.And(i >= 0, i < zint(n)))
+        closed_names = {acc_names[k_] for k_ in closed if k_ < len(acc_names)}
         for name in modified:
+            if name in closed_names:
+                continue
             if name in carried or name in lists:
                 body.env[name] = self.havoc_like(env0.get(name), name, body)
             else:
                 body.env.pop(name, None)
         body.env["_i"] = i
+        closed_set(body)
         body.env["_acc"] = [body.env.get(n) for n in acc_names]
         if inv is not None:
             self.assume(body, zbool(self.eval_spec(inv, body)))
@@ -307,13 +351,17 @@ class Exec:
                 f.env["_i"] = i + 1
                 f.env["_acc"] = [f.env.get(n) for n in acc_names]
                 self.oblige(f"inv-preserved:loop{ordinal}#{k}", f, self.eval_spec(inv, f), st)
+                closed_ok(f, f"inv-preserved:loop{ordinal}#{k}")
             for oid, nb in dict_before.items():
                 st_ = f.heap.get(oid)
                 if isinstance(st_, DictState):
                     new_entries.setdefault(oid, []).extend(st_.entries[nb:])
         # ---- exit
         fr.env["_i"] = zint(n)
+        closed_set(fr)
         for name in modified:
+            if name in closed_names:
+                continue
             if name in carried or name in lists:
                 fr.env[name] = self.havoc_like(env0.get(name), name, fr)
             elif name in _names(st.target):
@@ -330,9 +378,16 @@ class Exec:
             for nm in _names(st.target):
                 fr.env.pop(nm, None)
         for oid, ents in new_entries.items():
-            fr.heap[oid] = DictState(fr.heap[oid].entries + tuple(ents))
+            fr.heap[oid] = fr.heap[oid].extend(ents)
         fr.env.pop("_i", None)
         fr.env.pop("_acc", None)
+        if "_outer" in fr.env:
+            rest = list(fr.env["_outer"])[1:]
+            if rest:
+                fr.env["_outer"] = rest
+            else:
+                fr.env.pop("_outer")
+        fr.env.update(outer_ghosts)
         return [fr]
 
     def run_while(self, st, fr):
@@ -441,12 +496,51 @@ class Exec:
     def dict_store(self, ref, key, val, fr, node):
         if not isinstance(key, tuple):
             key = (key,)
+        val = self._freeze(val, fr)
         mark = fr.marks[0] if fr.marks else len(fr.pc)
         guard = z3.And(*[zbool(c) for c in fr.pc[mark:]]) if fr.pc[mark:] else z3.BoolVal(True)
         ent = Entry(fr.binders, guard, key, val, getattr(node, "lineno", 0))
         ent.aux = fr.aux
         ent.pc_outer = list(fr.pc[:mark])
+        if fr.aux and not self.quiet:
+            # a loop-carried scalar in a key/value must be DETERMINED by the iteration (binders) through the
+            # invariant: otherwise `defined` / `lookup`, which quantify it existentially, would over-approximate
+            used = [a for a in fr.aux if _mentions_any((key, val), a, fr.heap)]
+            if used:
+                primed = [(a, z3.FreshConst(a.sort(), "det")) for a in used]
+                g2 = z3.substitute(guard, *primed)
+                goal = z3.And(*[a == b for a, b in primed])
+                self.pv.prove(f"{self.fname}#det:carried-state-determined@L{getattr(node, 'lineno', '?')}", list(fr.pc) + [g2], goal)
         fr.heap[ref.oid] = fr.heap[ref.oid].add(ent)
+
+    def _freeze(self, v, fr):
+        """Snapshot lists referenced by a value stored into a dict (A-alias: such a list is not mutated after
+        it was stored; the concrete cross-check runs the real code, where aliasing is real)."""
+        if isinstance(v, Ref) and v.kind == "list":
+            self.assumptions.add("A-alias: a list stored as (part of) a dict value is not mutated afterwards")
+            s = fr.heap[v.oid]
+            return Seq(s.length, s.fn, "list")
+        if isinstance(v, tuple):
+            return tuple(self._freeze(x, fr) for x in v)
+        return v
+
+    def oblige_functional(self, fr, key, val, node):
+        if self.quiet:
+            return
+        vars_ = [b[0] for b in fr.binders] + list(fr.aux)
+        if not vars_:
+            return
+        if not isinstance(key, tuple):
+            key = (key,)
+        from .ctx import subst
+
+        mark = fr.marks[0] if fr.marks else len(fr.pc)
+        primed = [(v, z3.FreshConst(v.sort(), "fn")) for v in vars_]
+        pc2 = [z3.substitute(zbool(c), *primed) for c in fr.pc[mark:]]
+        key2, val2 = subst(key, primed, fr.heap), subst(val, primed, fr.heap)
+        same_key = zbool(self.equal(key, key2, fr))
+        goal = self.equal(val, val2, fr)
+        self.pv.prove(f"{self.fname}#fn:guarded-insert-value-determined-by-key@L{getattr(node, 'lineno', '?')}", list(fr.pc) + pc2 + [same_key], goal)
 
     def norm_index(self, idx, s, fr, node):
         n = s.length
@@ -1114,7 +1208,7 @@ class Exec:
             return self.list_method(base, name, args, fr, node)
         if isinstance(base, Ref) and base.kind == "dict":
             if name == "update" and len(args) == 1 and isinstance(args[0], Ref) and args[0].kind == "dict":
-                fr.heap[base.oid] = DictState(fr.heap[base.oid].entries + fr.heap[args[0].oid].entries)
+                fr.heap[base.oid] = fr.heap[base.oid].extend(fr.heap[args[0].oid].entries)
                 return None
             if name == "copy" and not args:
                 return self.new_dict(fr, fr.heap[base.oid])
@@ -1252,9 +1346,17 @@ class Exec:
                 return tuple(s.get(k) for k in range(s.length))
             return Seq(s.length, s.fn, "tuple")
         if name == "builtin:dict":
-            if args or kwargs:
-                raise Unsupported("dict(...) with arguments")
-            return self.new_dict(fr)
+            if kwargs or len(args) > 1:
+                raise Unsupported("dict(...) with keyword arguments")
+            if not args:
+                return self.new_dict(fr)
+            (a,) = args
+            if isinstance(a, Ref) and a.kind == "dict":
+                return self.new_dict(fr, fr.heap[a.oid])
+            if isinstance(a, (Opaque, Obj)):
+                # copy of an opaque mapping: its own keys are unknown, later insertions are tracked
+                return self.new_dict(fr, DictState((), base=a))
+            raise Unsupported(f"dict({a!r})")
         if name == "builtin:set":
             if not args:
                 return self.set_of_values([])
@@ -1373,6 +1475,77 @@ class Exec:
 
 
 # ---------------------------------------------------------------------- helpers
+
+
+def _mentions_any(v, var, heap):
+    if is_z3(v):
+        todo, seen = [v], set()
+        while todo:
+            x = todo.pop()
+            if x.get_id() in seen:
+                continue
+            seen.add(x.get_id())
+            if x.eq(var):
+                return True
+            todo.extend(x.children())
+        return False
+    if isinstance(v, (tuple, list)):
+        return any(_mentions_any(x, var, heap) for x in v)
+    if isinstance(v, Ite):
+        return _mentions_any((v.c, v.a, v.b), var, heap)
+    if isinstance(v, Ref) and v.kind == "list":
+        v = heap[v.oid]
+    if isinstance(v, Seq):
+        k = fresh_int("probe")
+        try:
+            return (is_z3(v.length) and _mentions_any(v.length, var, heap)) or _mentions_any(v.get(k), var, heap)
+        except Exception:
+            return True
+    if isinstance(v, Term):
+        return _mentions_any(tuple(v.args) + tuple(v.kwargs.values()), var, heap)
+    return False
+
+
+def _guarded_insert(st):
+    """(dict name, key node, value node) if `st` is  `if KEY not in D: D[KEY] = VALUE`  (no else)."""
+    if st.orelse or len(st.body) != 1 or not isinstance(st.body[0], ast.Assign) or len(st.body[0].targets) != 1:
+        return None
+    t, tgt = st.test, st.body[0].targets[0]
+    if not (isinstance(t, ast.Compare) and len(t.ops) == 1 and isinstance(t.ops[0], ast.NotIn) and isinstance(t.comparators[0], ast.Name)):
+        return None
+    if not (isinstance(tgt, ast.Subscript) and isinstance(tgt.value, ast.Name) and tgt.value.id == t.comparators[0].id):
+        return None
+    if ast.dump(tgt.slice) != ast.dump(t.left):
+        return None
+    return tgt.value.id, t.left, st.body[0].value
+
+
+def _dict_reads(body, names):
+    """Names of dicts/lists in `names` (subscript-stored in the loop body) that the body also READS."""
+    out = set()
+    if not names:
+        return out
+
+    def visit(node):
+        if isinstance(node, ast.If) and _guarded_insert(node) is not None:
+            d, k, v = _guarded_insert(node)
+            visit(k)
+            visit(v)
+            return
+        if isinstance(node, ast.Compare):
+            for op, cmp_ in zip(node.ops, node.comparators):
+                if isinstance(op, (ast.In, ast.NotIn)) and isinstance(cmp_, ast.Name) and cmp_.id in names:
+                    out.add(cmp_.id)
+        if isinstance(node, ast.Subscript) and isinstance(node.ctx, ast.Load) and isinstance(node.value, ast.Name) and node.value.id in names:
+            out.add(node.value.id)
+        if isinstance(node, ast.Call) and isinstance(node.func, ast.Attribute) and isinstance(node.func.value, ast.Name) and node.func.value.id in names and node.func.attr in ("get", "keys", "values", "items", "pop", "setdefault"):
+            out.add(node.func.value.id)
+        for ch in ast.iter_child_nodes(node):
+            visit(ch)
+
+    for st in body:
+        visit(st)
+    return out
 
 
 def _exc_name(node):
